@@ -20,6 +20,7 @@ static struct elem pool[MAXN];
 static struct cstl_dlist L[MAXL];
 static int N, NL;
 static int vals[MAXN];
+static int vcookie, vbad;       /* every visit / clear callback must receive the private pointer the caller passed */
 static char cfgdesc[200];
 
 /* model */
@@ -75,7 +76,7 @@ static const char *w_config_desc(void) { return cfgdesc; }
 static void w_init(void)
 {
     int i, l;
-    shim_reset();
+    shim_reset(); vbad = 0;
     __asan_unpoison_memory_region(pool, sizeof pool);
     memset(pool, 0, sizeof pool);
     for (i = 0; i < N; i++) { pool[i].val = vals[i]; pool[i].idx = i; m_where[i] = -1; pool[i].pad = 0x1111; pool[i].tail = 0x2222; pool[i].pad2 = 0x3333; }
@@ -124,7 +125,7 @@ static int cmp_elem(const void *a, const void *b, void *p)
 static int seen_seq[4 * MAXN + 8], seen_n, cb_stop_at, cb_guard;
 static int cb_collect(void *e, void *p)
 {
-    (void)p;
+    if (p != (void *)&vcookie) vbad++;
     if (seen_n < 4 * MAXN + 8) seen_seq[seen_n] = idx_of(e);
     seen_n++;
     if (seen_n > 4 * MAXN) return 99;                      /* watchdog against link cycles */
@@ -143,6 +144,7 @@ static void cb_clear(void *e, void *p)
 static int fe_list, fe_which, fe_visits;
 static int cb_erase(void *e, void *p)
 {
+    if (p != (void *)&vcookie) vbad++;
     int i = idx_of(e);
     (void)p;
     if (fe_visits < 4 * MAXN + 8) seen_seq[fe_visits] = i;
@@ -159,7 +161,7 @@ static void collect(int l, int dir, int stop_at, int *ab, int *res)
 {
     static volatile int r;
     seen_n = 0; cb_stop_at = stop_at; cb_guard = 0;
-    SHIM_CALL(*ab, r = cstl_dlist_foreach(&L[l], cb_collect, NULL, dir ? CSTL_DLIST_FOREACH_DIR_REV : CSTL_DLIST_FOREACH_DIR_FWD));
+    SHIM_CALL(*ab, r = cstl_dlist_foreach(&L[l], cb_collect, &vcookie, dir ? CSTL_DLIST_FOREACH_DIR_REV : CSTL_DLIST_FOREACH_DIR_FWD));
     *res = r;
 }
 
@@ -282,7 +284,7 @@ static void w_apply(mc_op_t o)
         static volatile int r;
         MC_COUNT(K_FOREACH_ERASE);
         fe_list = a; fe_which = one ? d : -1; fe_visits = 0;
-        SHIM_CALL(ab, r = cstl_dlist_foreach(&L[a], cb_erase, NULL, b ? CSTL_DLIST_FOREACH_DIR_REV : CSTL_DLIST_FOREACH_DIR_FWD));
+        SHIM_CALL(ab, r = cstl_dlist_foreach(&L[a], cb_erase, &vcookie, b ? CSTL_DLIST_FOREACH_DIR_REV : CSTL_DLIST_FOREACH_DIR_FWD));
         __asan_unpoison_memory_region(pool, sizeof pool);
         if (!ab) {
             MC_CHECK(PC12, r == 0, "foreach with removal returned %d although the visitor always returned 0", r);
@@ -337,6 +339,7 @@ static void w_audit(void)
             }
         }
     }
+    MC_CHECK(PC12, vbad == 0, "a visit callback received a private pointer other than the one the caller passed (%d calls)", vbad);
     for (k = 0; k < N; k++) MC_CHECK(PC12, pool[k].pad == 0x1111 && pool[k].tail == 0x2222 && pool[k].pad2 == 0x3333 && pool[k].val == vals[k], "element %d bytes outside its list node were modified", k);
 }
 
@@ -368,6 +371,7 @@ static void w_canon(void)
 {
     int l, i;
     for (l = 0; l < NL; l++) canon_one(l);
+    KB_C('v'); KB_U((unsigned)(vbad != 0));
     KB_C('m'); for (i = 0; i < N; i++) KB_I(m_where[i]);
     for (i = 0; i < N; i++) if (pool[i].pad != 0x1111 || pool[i].tail != 0x2222 || pool[i].pad2 != 0x3333 || pool[i].val != vals[i]) { KB_C('X'); KB_U((unsigned)i); }
 }
